@@ -149,6 +149,7 @@ pub fn run_c13(ctx: &Ctx) {
     let (shards, per) = ctx.tier.pick((16, 12000), (16, 200000));
     run_prop(ctx, "canonicalize", shards, per, uri_case, judge_c13, |u| u.to_json());
     ctx.append_rule(HISTORY_RULE);
+    apply_unusual_env(ctx);
     let (shards, per) = ctx.tier.pick((16, 3000), (16, 50000));
     run_prop(ctx, "target-history", shards, per, uri_history, |h, p| judge_history(h, p, judge_c13), history_json);
 }
@@ -293,6 +294,7 @@ pub fn run_c14(ctx: &Ctx) {
     let (shards, per) = ctx.tier.pick((16, 25000), (16, 400000));
     run_prop(ctx, "transport-url", shards, per, uri_case, judge_c14, |u| u.to_json());
     ctx.append_rule(HISTORY_RULE);
+    apply_unusual_env(ctx);
     let (shards, per) = ctx.tier.pick((16, 5000), (16, 80000));
     run_prop(ctx, "target-history", shards, per, uri_history, |h, p| judge_history(h, p, judge_c14), history_json);
     // live: what both clients really dial for ipp:// targets with explicit ports (request line, Host)
